@@ -177,7 +177,13 @@ class G:
         self.blocks = [b if isinstance(b, np.ndarray) and b.dtype == object else _obj(b) for b in blocks]
         self.bax, self.tag, self.layout = bax, tag, layout
         self.base = base  # the object whose memory this is a view of (writes through views are tracked)
+        self.base_ver = getattr(base, "_ver", 0) if base is not None else 0
+        self._ver = 0  # bumped on every in-place write: views taken before a write are stale afterwards (NumPy aliasing is not modelled)
         self.is_argument = False
+
+    def _fresh(self):
+        if self.base is not None and getattr(self.base, "_ver", 0) != self.base_ver:
+            raise Unsupported("use of a view after its base array was written (NumPy aliasing is not modelled)")
 
     # ---- shape
     @property
@@ -207,6 +213,7 @@ class G:
         raise Unsupported("builtin len() on row-generic array (bind the shim)")
 
     def like(self, blocks, **kw):
+        self._fresh()
         d = dict(bax=self.bax, tag=self.tag, layout=self.layout)
         d.update(kw)
         return G(blocks, **d)
@@ -232,6 +239,9 @@ class G:
 
     # ---- elementwise
     def _bin(self, o, f, reflected=False):
+        self._fresh()
+        if isinstance(o, G):
+            o._fresh()
         a, b = self, o
         if isinstance(b, (SymInt,)):
             b = zlift(b)
@@ -348,6 +358,7 @@ class G:
 
     # ---- in-place (mutate self, as numpy does; record the write)
     def _inplace(self, new, what):
+        self._ver += 1
         record_write(self, what)
         if new.bax != self.bax or new.tshape != self.tshape or len(new.blocks) != len(self.blocks):
             raise Unsupported("in-place op changes shape")
@@ -566,6 +577,7 @@ def _block_slice(g, k):
 
 
 def g_getitem(g, k):
+    g._fresh()
     base = g.base if g.base is not None else g
     if _is_mask(k):
         if g.bax != 0:
@@ -618,6 +630,10 @@ def _coerce_value(v, like_shape):
 
 
 def g_setitem(g, k, v):
+    g._fresh()
+    if isinstance(v, G):
+        v._fresh()
+    g._ver += 1
     record_write(g, f"[{_kdesc(k)}] =")
     if g.base is not None and not (isinstance(v, G) and v is g):
         # write through a view (x, y, z = np.copy(obs).T ; x[mask] = ...): this view is updated; the array it was taken from would be
